@@ -66,8 +66,8 @@ C25 == ChosenByType /\ ConcreteFirst /\ NoPanic /\ Agreement /\ ProtoOverride
 
 (* the defect sets the monitor evaluates first (repaired, single defects, everything, the usual pair) *)
 ClosedFormQuick == \A kind \in Kinds :
-                   \A D \in {{}} \cup {{d} : d \in AllDefects} \cup {AllDefects, {"MapOrderDispatch", "FirstMatchShadowsConcrete"}} :
+                   \A D \in {{}} \cup {{d} : d \in SenderDefects} \cup {SenderDefects, {"MapOrderDispatch", "FirstMatchShadowsConcrete"}} :
                    ClosedOutcomes(api, regs, kind, D) = SndOutcomes(api, regs, kind, D)
-ClosedFormOK == \A kind \in Kinds : \A D \in SUBSET AllDefects :
+ClosedFormOK == \A kind \in Kinds : \A D \in SUBSET SenderDefects :
                    ClosedOutcomes(api, regs, kind, D) = SndOutcomes(api, regs, kind, D)
 ====
